@@ -1,6 +1,13 @@
 use pcv_core::{checks, cli, mem, run::Report};
 
 fn main() {
+    // child mode of C04's recursion probe: decode one hostile input into a recursive type and report by exit status
+    let argv: Vec<String> = std::env::args().collect();
+    if argv.get(1).map(|s| s.as_str()) == Some("RECPROBE") {
+        let kind = argv.get(2).cloned().unwrap_or_default();
+        let depth: usize = argv.get(3).and_then(|s| s.parse().ok()).unwrap_or(0);
+        std::process::exit(checks::recprobe_child(&kind, depth));
+    }
     let cfg = match cli::parse_args() {
         Ok(c) => c,
         Err(e) => {
